@@ -124,3 +124,47 @@ Proof. exists ([[5]], [[false]]). vm_compute. discriminate. Qed.
 Lemma trimmed_array_parity_change_witness :
   trimmed_array_from (3, 3) [[1; 2; 3]; [4; 5; 6]; [7; 8; 9]] (2, 2) = [[1; 2; 3]; [4; 5; 6]; [7; 8; 9]].
 Proof. vm_compute. reflexivity. Qed.
+
+(* ------------------------------------------------------------------ Grid2D.padded_grid_from (PSF padding of a grid) *)
+(* for an odd kernel the padded grid lists, for every pixel (i, j) of the padded frame, the coordinate that pixel
+   (i - (k0-1)/2, j - (k1-1)/2) has in the ORIGINAL frame (for the pixels of the original frame: their own coordinate) *)
+Lemma padded_grid_keeps_coordinates H W k0 k1 (g : @geom ROps) :
+  0 < H -> 0 <= W -> Z.odd k0 = true -> Z.odd k1 = true -> 1 <= k0 -> 1 <= k1 ->
+  @padded_grid_from ROps H W (k0, k1) g =
+  map (fun p => @pixel_centre_code ROps H W g (fst p - (k0 - 1) / 2) (snd p - (k1 - 1) / 2))
+      (unmasked_coords (all_false_mask (H + k0 - 1) (W + k1 - 1))).
+Proof.
+  intros HP HW O0 O1 K0 K1. unfold padded_grid_from. cbn [fst snd].
+  set (R0 := H + k0 - 1). set (R1 := W + k1 - 1).
+  assert (HE : Entries (all_false_mask R0 R1) R0 R1 (fun i j => false)).
+  { unfold all_false_mask. apply (Entries_tab2 R0 R1 (fun _ _ => false)); unfold R0, R1; lia. }
+  destruct (Entries_shape _ _ _ _ HE ltac:(unfold R0; lia)) as [S0 S1].
+  rewrite (grid_scan _ _ _ _ g HE), (unmasked_coords_scan _ _ _ _ HE), map_scan, S0, S1. cbn [fst snd].
+  apply scan_ext. intros y x _ _. split; [reflexivity|]. intros _.
+  rewrite (centre_code_shift H W R0 R1 g).
+  - apply Z.odd_spec in O0. apply Z.odd_spec in O1. destruct O0 as [q0 Q0]. destruct O1 as [q1 Q1].
+    f_equal; unfold R0, R1; subst k0 k1.
+    + replace (2 * q0 + 1 - 1) with (q0 * 2) by lia. rewrite Z.div_mul by lia.
+      replace (H + (2 * q0 + 1) - 1) with (H + q0 * 2) by lia. rewrite Z.div_add by lia. lia.
+    + replace (2 * q1 + 1 - 1) with (q1 * 2) by lia. rewrite Z.div_mul by lia.
+      replace (W + (2 * q1 + 1) - 1) with (W + q1 * 2) by lia. rewrite Z.div_add by lia. lia.
+  - unfold R0. replace (H + k0 - 1 - H) with (k0 - 1) by lia. rewrite Z.even_sub. rewrite <- Z.negb_odd, O0. reflexivity.
+  - unfold R1. replace (W + k1 - 1 - W) with (k1 - 1) by lia. rewrite Z.even_sub. rewrite <- Z.negb_odd, O1. reflexivity.
+Qed.
+(* the padded frame has the stated shape and every pixel of it is listed (nothing is masked) *)
+Lemma flat_map_const_length {C} (G : nat -> list C) n1 : (forall y, length (G y) = n1) ->
+  forall n0 s, length (flat_map G (seq s n0)) = (n0 * n1)%nat.
+Proof.
+  intros HG. induction n0 as [|n0 IH]; intros s; [reflexivity|].
+  cbn [seq flat_map]. rewrite app_length, HG, IH. reflexivity.
+Qed.
+Lemma padded_grid_length H W k0 k1 (g : @geom ROps) : 0 < H + k0 - 1 -> 0 <= W + k1 - 1 ->
+  length (@padded_grid_from ROps H W (k0, k1) g) = (Z.to_nat (H + k0 - 1) * Z.to_nat (W + k1 - 1))%nat.
+Proof.
+  intros H0 H1. unfold padded_grid_from. cbn [fst snd]. set (R0 := H + k0 - 1). set (R1 := W + k1 - 1).
+  assert (HE : Entries (all_false_mask R0 R1) R0 R1 (fun i j => false)).
+  { unfold all_false_mask. apply (Entries_tab2 R0 R1 (fun _ _ => false)); lia. }
+  rewrite (grid_scan _ _ _ _ g HE). unfold scan.
+  apply flat_map_const_length. intros y.
+  rewrite (flat_map_const_length _ 1%nat); [lia|]. intros x. reflexivity.
+Qed.
